@@ -53,7 +53,8 @@ class C20(Prop):
             if k == 'cstream':
                 count = rng.choice([0, 1, 2, 5, 9])
                 c.update(limit=rng.choice([1, 2, 3, 4, 2 ** 31 - 1]), count=count, end=rng.choice(['complete', 'flag', 'error'] if count else ['complete', 'error']), burst=rng.choice([1, 2, 5]),
-                         dispose_after=rng.choice([None, None, None, rng.randint(0, max(0, count))]), channel=rng.random() < 0.3)
+                         dispose_after=rng.choice([None, None, None, rng.randint(0, max(0, count))]), channel=rng.random() < 0.3,
+                         dispose_now=rng.random() < 0.12)
             elif k == 'cresp':
                 c.update(data=rng.choice(['', 'aa', 'bbcc']), error=rng.random() < 0.2)
             elif k == 'coneway':
@@ -98,6 +99,15 @@ class C20(Prop):
             obs = rxc.request_stream(Payload(b'q'), request_limit=case['limit'])
         disp = obs.subscribe(on_next=lambda v: events.append(['n', v.data[0] if v.data else None]), on_error=lambda e: events.append(['e', type(e).__name__]),
                              on_completed=lambda: events.append(['c']))
+        if case.get('dispose_now'):
+            # disposed in the very loop iteration in which it was subscribed: if the request goes out at all, a CANCEL must follow it
+            disp.dispose()
+            await loop.settle()
+            sent = t.sent[n0:]
+            res = {'dispose_now': True, 'requests': len([e for e in sent if isinstance(e[2], (F.RequestStreamFrame, F.RequestChannelFrame))]),
+                   'cancels': len([e for e in sent if isinstance(e[2], F.CancelFrame)]), 'events': events, 'model': [], 'disposed': True}
+            await core.close()
+            return res
         await loop.settle()
         reqs = [e[2] for e in t.sent[n0:] if isinstance(e[2], (F.RequestStreamFrame, F.RequestChannelFrame))]
         sid = reqs[0].stream_id if reqs else None
@@ -318,6 +328,8 @@ class C20(Prop):
 
     # -- model / verdict --------------------------------------------------------------------------
     def model_lines(self, case, obs):
+        if obs.get('dispose_now'):
+            return []
         if case['kind'] == 'cstream':
             return ['rxb %d %s' % (case['limit'], ' '.join(obs['model']))]
         if case['kind'] == 'hstream' and not case['factory'] and case['error_at'] is None:
@@ -351,6 +363,12 @@ class C20(Prop):
         fails = []
         k, ver = case['kind'], case['ver']
         add = lambda sig, what: fails.append({'signature': '%s:%s' % (sig, ver), 'what': what})
+        if k == 'cstream' and obs.get('dispose_now'):
+            if obs['requests'] > 0 and obs['cancels'] != obs['requests']:
+                add('dispose-does-not-cancel', 'observable disposed in the loop iteration in which it was subscribed: %d request frame(s) went out, %d CANCEL' % (obs['requests'], obs['cancels']))
+            if obs['events']:
+                add('signals-after-dispose', 'observer got %s after an immediate dispose' % obs['events'])
+            return fails
         if k == 'cstream':
             if obs['initial'] != case['limit']:
                 add('initial-request-not-the-limit', 'request_limit=%d but initial request-n %s' % (case['limit'], obs['initial']))
